@@ -34,7 +34,7 @@ func readTlvStream(
 		for {
 			rdr := enc.NewBufferReader(recvBuf[tlvOff:recvOff])
 
-			typ, err := enc.ReadTLNum(rdr)
+			_, err := enc.ReadTLNum(rdr)
 			if err != nil {
 				// Probably incomplete packet
 				break
@@ -51,7 +51,9 @@ func readTlvStream(
 				return errors.New("received TLV block larger than the maximum packet size")
 			}
 
-			tlvSize := typ.EncodingLength() + len.EncodingLength() + int(len)
+			// The header is as long as it was written, which need not be the
+			// shortest form of the two numbers
+			tlvSize := rdr.Pos() + int(len)
 
 			if recvOff-tlvOff >= tlvSize {
 				// Packet was successfully received, send up to link service
